@@ -462,7 +462,9 @@ def local_groups(cont, table, skip, extra_defs, driver):
                 d = ['C12_ABSTRACT=1', 'CFG=%d' % CFG[cfg]] + extra_defs
                 # the local groups have no heap to replay; the size arithmetic of "insert/emplace on an existing key" has
                 rp = (Replay(driver=driver, mode='local_insert_existing', extra=[cont], sources=[])
-                      if op in ('after_emplace', 'insert', 'emplace') and cont == 'LRUSet' and cfg in ITEM_CFGS else None)
+                      if op in ('after_emplace', 'insert', 'emplace') and cont == 'LRUSet' and cfg in ITEM_CFGS else
+                      Replay(driver=driver, mode='local_sweep', extra=[cont, op], sources=[])
+                      if op in ('insert', 'insert_const', 'emplace', 'erase', 'clear', 'change_size', 'touch', 'evict_object', 'peek', 'at', 'at_const', 'item_size') and not (cont == 'LRUSet' and op in ('at', 'at_const', 'item_size', 'insert_const')) else None)
                 gs.append(Group(name='%s.%s[%s]' % (cont, op, cfg), harness=H_LOCAL, entry='h_' + op,
                                 function='%s::%s' % (cont, CXX.get(op, op).replace('{C}', cont)), enforce='%s_%s' % (cont, op),
                                 replace=list(repl), defines=d, kind='loop-free', object_bits=12, timeout=180, stage1=20, replay=rp,
